@@ -246,4 +246,151 @@ theorem tie_methodsAllowedStmts : methodsAllowedStmts = [
 theorem tie_validMethodStmts : validMethodStmts = [
   "return method == http.MethodDelete || method == http.MethodGet || method == http.MethodHead || method == http.MethodOptions || method == http.MethodPatch || method == http.MethodPost || method == http.MethodPut"] := rfl
 
+/-! ### custom handlers, path variables, rest.Server / engine wiring -/
+
+/-- `SetNotFoundHandler` — model `PatRouter.notFound` (driver op `setnf`): plain overwrite, nil resets to the default. -/
+theorem tie_setNotFoundStmts : setNotFoundStmts = [
+  "pr.notFound = handler"] := rfl
+
+/-- `SetNotAllowedHandler` — model `PatRouter.notAllowed` (driver op `setna`). -/
+theorem tie_setNotAllowedStmts : setNotAllowedStmts = [
+  "pr.notAllowed = handler"] := rfl
+
+/-- `NewRouter` — model `({} : PatRouter)`: no trees, no custom handlers. -/
+theorem tie_newRouterStmts : newRouterStmts = [
+  "return &patRouter{ trees: make(map[string]*search.Tree), }"] := rfl
+
+/-- `pathvar.Vars` — what a handler sees: the map stored under the context key, nil when none was stored. -/
+theorem tie_pathvarVarsStmts : pathvarVarsStmts = [
+  "vars, ok := r.Context().Value(pathVars).(map[string]string)",
+  "if ok {",
+  "return vars",
+  "}",
+  "return nil"] := rfl
+
+/-- `pathvar.WithVars` — the params map of the search result is stored as is (no copy, no merge with an outer map). -/
+theorem tie_pathvarWithVarsStmts : pathvarWithVarsStmts = [
+  "return r.WithContext(context.WithValue(r.Context(), pathVars, params))"] := rfl
+
+/-- `engine.addRoutes` — model `Server.addRoutes`: the group is appended to `ng.routes` (SSE wrapping keeps method and path). -/
+theorem tie_engineAddRoutesStmts : engineAddRoutesStmts = [
+  "if r.sse {",
+  "r.routes = buildSSERoutes(r.routes)",
+  "}",
+  "ng.routes = append(ng.routes, r)",
+  "if r.timeout > ng.timeout {",
+  "ng.timeout = r.timeout",
+  "}"] := rfl
+
+/-- `engine.bindRoutes` — model `Server.bindRoutes`/`bindAll`: groups in `AddRoutes` order, the first error aborts. -/
+theorem tie_engineBindRoutesStmts : engineBindRoutesStmts = [
+  "metrics := ng.createMetrics()",
+  "range _, fr := ng.routes {",
+  "if err := ng.bindFeaturedRoutes(router, fr, metrics); err != nil {",
+  "return err",
+  "}",
+  "}",
+  "return nil"] := rfl
+
+/-- `engine.bindFeaturedRoutes` — model `bindAll` over `Group.regs`: routes of a group in order, the first error aborts. -/
+theorem tie_engineBindFeaturedStmts : engineBindFeaturedStmts = [
+  "verifier, err := ng.signatureVerifier(fr.signature)",
+  "if err != nil {",
+  "return err",
+  "}",
+  "range _, route := fr.routes {",
+  "if err := ng.bindRoute(fr, router, metrics, route, verifier); err != nil {",
+  "return err",
+  "}",
+  "}",
+  "return nil"] := rfl
+
+/-- `engine.bindRoute` — model: `router.Handle(route.Method, route.Path, chain(route.Handler))`: method and path unchanged, the handler is the route's own behind the middleware chain. -/
+theorem tie_engineBindRouteStmts : engineBindRouteStmts = [
+  "chn := ng.chain",
+  "if chn == nil {",
+  "chn = ng.buildChainWithNativeMiddlewares(fr, route, metrics)",
+  "}",
+  "chn = ng.appendAuthHandler(fr, chn, verifier)",
+  "range _, middleware := ng.middlewares {",
+  "chn = chn.Append(convertMiddleware(middleware))",
+  "}",
+  "handle := chn.ThenFunc(route.Handler)",
+  "return router.Handle(route.Method, route.Path, handle)"] := rfl
+
+/-- `engine.notFoundHandler` — model `NFHandler.engine next`: `next` (or `http.NotFoundHandler()`) runs behind trace/log, then the status is forced to 404 unless already written (driver `fmtResponse`). -/
+theorem tie_engineNotFoundStmts : engineNotFoundStmts = [
+  "return http.HandlerFunc(func(w http.ResponseWriter, r *http.Request){...})",
+  "func{",
+  "chn := chain.New( handler.TraceHandler(ng.conf.Name, \"\", handler.WithTraceIgnorePaths(ng.conf.TraceIgnorePaths)), )",
+  "if ng.conf.Middlewares.Log {",
+  "chn = chn.Append(ng.getLogHandler())",
+  "}",
+  "var h http.Handler",
+  "if next != nil {",
+  "h = chn.Then(next)",
+  "}",
+  "else{",
+  "h = chn.Then(http.NotFoundHandler())",
+  "}",
+  "cw := response.NewHeaderOnceResponseWriter(w)",
+  "h.ServeHTTP(cw, r)",
+  "cw.WriteHeader(http.StatusNotFound)",
+  "}"] := rfl
+
+/-- `NewServer` — model `newServer`: a fresh `router.NewRouter()`, `WithNotFoundHandler(nil)` first, then the options in the given order. -/
+theorem tie_newServerStmts : newServerStmts = [
+  "if err := c.SetUp(); err != nil {",
+  "return nil, err",
+  "}",
+  "server := &Server{ ngin: newEngine(c), router: router.NewRouter(), }",
+  "opts = append([]RunOption{WithNotFoundHandler(nil)}, opts...)",
+  "range _, opt := opts {",
+  "opt(server)",
+  "}",
+  "return server, nil"] := rfl
+
+/-- `Server.AddRoutes` — model `Group`/`Server.addRoutes`: the route options (WithPrefix) are applied to the group, then `engine.addRoutes`. -/
+theorem tie_serverAddRoutesStmts : serverAddRoutesStmts = [
+  "r := featuredRoutes{ routes: rs, }",
+  "range _, opt := opts {",
+  "opt(&r)",
+  "}",
+  "s.ngin.addRoutes(r)"] := rfl
+
+/-- `Server.Routes` — what the harness prints for a `group` op: the stored routes in order. -/
+theorem tie_serverRoutesStmts : serverRoutesStmts = [
+  "routes := make([]Route, 0, len(s.ngin.routes))",
+  "range _, r := s.ngin.routes {",
+  "routes = append(routes, r.routes...)",
+  "}",
+  "return routes"] := rfl
+
+/-- `WithPrefix` — model `Group.regs`/`joinRaw`: every route path becomes `path.Join(group, path)`, method and handler kept. -/
+theorem tie_withPrefixStmts : withPrefixStmts = [
+  "return func(r *featuredRoutes){...}",
+  "func{",
+  "routes := make([]Route, 0, len(r.routes))",
+  "range _, rt := r.routes {",
+  "p := path.Join(group, rt.Path)",
+  "routes = append(routes, Route{ Method: rt.Method, Path: p, Handler: rt.Handler, })",
+  "}",
+  "r.routes = routes",
+  "}"] := rfl
+
+/-- `WithNotFoundHandler` — model `Server.apply (.notFound h)`: the router's notFound is the engine wrapper around `h`. -/
+theorem tie_withNotFoundStmts : withNotFoundStmts = [
+  "return func(server *Server){...}",
+  "func{",
+  "notFoundHandler := server.ngin.notFoundHandler(handler)",
+  "server.router.SetNotFoundHandler(notFoundHandler)",
+  "}"] := rfl
+
+/-- `WithNotAllowedHandler` — model `Server.apply (.notAllowed h)`: set on the router as is (no wrapper; nil = default 405 + Allow). -/
+theorem tie_withNotAllowedStmts : withNotAllowedStmts = [
+  "return func(server *Server){...}",
+  "func{",
+  "server.router.SetNotAllowedHandler(handler)",
+  "}"] := rfl
+
 end GoZero.C09.Tie
